@@ -287,11 +287,6 @@ func HTMLAssets(item *models.Item) (assets []*models.URL, err error) {
 				// Strip the whitespace and the quotes that may surround the URL inside url(...)
 				matchReplacement := strings.Trim(strings.TrimSpace(matches[match][1]), `'"`)
 
-				// If the URL already has http (or https), we don't need add anything to it.
-				if !strings.Contains(matchReplacement, "http") {
-					matchReplacement = strings.Replace(matchReplacement, "//", "http://", -1)
-				}
-
 				if strings.HasPrefix(matchReplacement, "#wp-") {
 					continue
 				}
